@@ -84,8 +84,12 @@ def _gen_lf_ops(rng, n_ops, depth=0):
                         "const": rng.random() < 0.25})
         elif r < 0.50:
             ops.append({"op": "mprobs", "vals": [round(rng.uniform(0.05, 1), 3) for _ in range(4)]})
-        elif r < 0.56:
+        elif r < 0.53:
             ops.append({"op": "aln", "which": rng.randint(0, 2)})
+        elif r < 0.56:
+            ops.append({"op": "time_het", "how": rng.choice(["max", "sets", "const"]),
+                        "edges": [rng.randint(0, 7) for _ in range(rng.randint(1, 3))],
+                        "frac": round(rng.random(), 4)})
         elif r < 0.68 and depth == 0:
             inner = _gen_lf_ops(rng, rng.randint(1, 4), depth=1)
             ops.append({"op": "batch", "ops": inner,
@@ -273,6 +277,17 @@ def apply_lf_op(ctx: Ctx, op, res: RunResult, in_batch=False):
             return "skip"
         lf.set_motif_probs(mp)
         return "mprobs"
+    if name == "time_het":
+        if not _rate_params(lf):
+            return "skip"
+        edges = sorted({ctx.edges[e % len(ctx.edges)] for e in op["edges"]})
+        if op["how"] == "max":
+            lf.set_time_heterogeneity(is_independent=True)
+        elif op["how"] == "sets":
+            lf.set_time_heterogeneity(edge_sets=[dict(edges=edges, is_independent=op["frac"] < 0.5)])
+        else:
+            lf.set_time_heterogeneity(edge_sets=[dict(edges=edges, is_constant=True, value=_frac_value(op["frac"]))])
+        return f"time_het:{op['how']}"
     if name == "aln":
         ctx.cur_aln = op["which"]
         lf.set_alignment(ctx.aln_n(op["which"]))
@@ -367,7 +382,7 @@ def run_lf(plan, res: RunResult):
             out = io.StringIO()
             try:
                 with contextlib.redirect_stdout(out):
-                    if name in ("rule", "length", "mprobs", "aln"):
+                    if name in ("rule", "length", "mprobs", "aln", "time_het"):
                         kind = apply_lf_op(ctx, op, res) or name
                     elif name == "batch":
                         kind = f"batch-{op['via']}"
